@@ -321,7 +321,7 @@ def run(ck):
   ck.mc("Realloc_MC", "Realloc_MC" if quick else "Realloc_MCT", required_actions=acts)
   ck.mc("Realloc_MC", "Realloc_MCE", required_actions=acts)      # the exact-input float model
   # ---- R ------------------------------------------------------------------------------------------
-  beh = ck.gen("Realloc_Gen", "Realloc_Gen", timeout=1200)
+  beh = ck.gen("Realloc_Gen", "Realloc_Gen" if quick else "Realloc_GenT", timeout=2400)
   ck.sample({"spec_behaviour": beh[len(beh) // 2]})
   instances, keys, allowed_any, jobs, meta, res, nviol, _ = replay(ck, beh, quick)
   # tie witnesses: small integers beyond the exhaustive bound for which float32 s*(r/t) lands below the exact
@@ -363,23 +363,25 @@ def run(ck):
   ck.cov["float_score_calls"] = {"total": len(vjobs), "accepted": nacc,
                                  "absorbing": sum(1 for j, r in zip(vjobs, vres)
                                                   if not j.get("checkpoint") and job_class(j, r) == "absorbing")}
-  if nacc == 0:
+  if nacc == 0 and not ck.violations:
     raise core.MachineryError("vacuous V leg: no float-score call was accepted")
-  # binding self-tests (V): corrupt one logged field of accepted traces
-  acc = [t for t, v in zip(traces, verdicts) if v["accepted"]]
-  t0 = copy.deepcopy(acc[0])
-  g = t0["events"][0]
-  # push the group over its budget by raising ranks to dim wherever possible
-  t0["events"][0]["ranks"] = [t0["cfg"]["base"] + 1] * g["n"]
-  t0["events"][0]["dim"] = max(g["dim"], t0["cfg"]["base"] + 1)
-  t1 = copy.deepcopy(acc[1]); t1["events"][-1]["ranks"][0] = 0
-  t2 = copy.deepcopy(acc[2]); t2["events"][0]["ranks"][0] = t2["events"][0]["dim"] + 1
+  # binding self-tests (V): a synthetic well-formed trace is accepted; each corrupted logged field is rejected
+  base = {"cfg": {"base": 2}, "events": [{"err": "none", "dim": 3, "n": 3, "ranks": [3, 2, 1]},
+                                         {"err": "none", "dim": 7, "n": 1, "ranks": [2]}]}
+  def mod(i, **kw):
+    t = copy.deepcopy(base)
+    t["events"][i].update(kw)
+    return t
+  synth = [copy.deepcopy(base), mod(0, ranks=[3, 2, 2]), mod(1, ranks=[0]), mod(0, ranks=[4, 1, 1]),
+           mod(0, ranks=[3, 2]), mod(1, err="AssertionError", dim=0, n=0, ranks=[])]
   sub = core.Check(ck.pid, ck.level, ck.tier, ck.seed); sub.work = ck.work
-  vs = sub.validate("Realloc_Trace", "Realloc_Trace", [t0, t1, t2])
-  ck.selftest("V: a group one row per axis over its budget is rejected",
-              vs[0]["verdict"] == "group_over_budget")
-  ck.selftest("V: an unassigned axis (rank 0) is rejected", vs[1]["verdict"] == "rank_below_one")
-  ck.selftest("V: a rank above the axis dimension is rejected", vs[2]["verdict"] == "rank_above_dim")
+  vs = sub.validate("Realloc_Trace", "Realloc_Trace", synth)
+  ck.selftest("V: a well-formed synthetic trace is accepted", vs[0]["accepted"])
+  ck.selftest("V: a group one row over its budget is rejected", vs[1]["verdict"] == "group_over_budget")
+  ck.selftest("V: an unassigned axis (rank 0) is rejected", vs[2]["verdict"] == "rank_below_one")
+  ck.selftest("V: a rank above the axis dimension is rejected", vs[3]["verdict"] == "rank_above_dim")
+  ck.selftest("V: an axis missing from its group is rejected", vs[4]["verdict"] == "group_size_mismatch")
+  ck.selftest("V: an assertion failure of the code is rejected", vs[5]["verdict"] == "code_assertion_failed")
   ck.assume("scores in the replay leg are integers 0..5 (times a positive float constant): the rational "
             "model's tie rule covers float32 rounding only for such proportional inputs; arbitrary float "
             "scores are covered by the trace leg, which checks the budget, not the exact allocation")
